@@ -55,6 +55,8 @@ import CtyModel.Lemmas.UnifyFlat
 import CtyModel.Lemmas.d09Fuel
 import CtyModel.Lemmas.d09Fuel2
 import CtyModel.Lemmas.ConvertD08SetEnv
+import CtyModel.Lemmas.d09bTotal
+import CtyModel.Lemmas.d09bPlain
 namespace CtyModel
 namespace C09
 open Convert Ty Unify
@@ -960,6 +962,99 @@ theorem no_panic_applied_driver (n fuel' : Nat) (uns : Bool) (types : List Ty) (
 former witness, its step targets placeholder-free -/
 example : (unify driverEnv 4 totalWitnessTys).map (fun o => o.map fun r => (r.1, r.2[0]?)) =
     .ok (some (.list (.list .string), some (some totalWitnessConv))) := rfl
+
+/-! ## d09b — totality; placeholder-free inputs need no side condition
+
+`plainTy` = well-formed, no optional-attribute annotation, no DynamicPseudoType anywhere: the
+"placeholder-free" types of the property.  On such inputs the side conditions of the
+applied-conversion theorems (`plainTy t`, `∀ m ∈ stepTargets c, plainTy m`) are THEOREMS
+(Lemmas/d09bPlainTy.lean, d09bPlain.lean), and the model never runs out of fuel (d09bTotal.lean). -/
+
+/-- TOTALITY of the model: with two activations or more `unify` answers a Go outcome — a return
+or a panic, never "out of fuel", and the model has no error outcome — for EVERY environment, mode
+and list of types of any depth … -/
+theorem unify_total_outcome (E : Env) (n : Nat) (uns : Bool) (types : List Ty) :
+    (∃ out, unifyF E (n + 2) uns types = .ok out) ∨ ∃ w, unifyF E (n + 2) uns types = .panic w := by
+  have h := lv_unifyF E uns n types
+  cases hr : unifyF E (n + 2) uns types with
+  | ok o => exact .inl ⟨o, rfl⟩
+  | err c => rw [hr] at h; simp [lv] at h
+  | panic w => exact .inr ⟨w, rfl⟩
+  | unmodelled => rw [hr] at h; simp [lv] at h
+
+/-- … and with `no_panic` it is a return: `unify` is a TOTAL function of the type list (object
+types well-formed, as every `cty.Object(…)` is), answering NilType or a type with its slice.
+This sharpens `no_panic_total`, whose "out of fuel" and "error" disjuncts are empty from fuel 2 on. -/
+theorem unify_total (E : Env) (n : Nat) (uns : Bool) (types : List Ty)
+    (hw : ∀ ty ∈ types, isObjectTy ty = true → ty.wf = true) : ∃ out, unifyF E (n + 2) uns types = .ok out :=
+  unifyF_total E uns n types hw
+
+example : ∃ out, unifyF driverEnv 2 true [.object ["a"] [.string] [false], .tuple [.bool], .dyn] = .ok out :=
+  unify_total _ 0 _ _ (by decide)
+
+/-- The unified TYPE of placeholder-free types is placeholder-free, well-formed and
+annotation-free (`unifyTy`, the type result at sufficient fuel; any depth, either mode). -/
+theorem unified_type_plain_std (uns : Bool) (types : List Ty) (t : Ty) (hp : ∀ ty ∈ types, plainTy ty = true)
+    (h : unifyTy uns types = some t) : plainTy t = true :=
+  unifyTy_plain uns types t hp h
+
+/-- … and at every fuel -/
+theorem unified_type_plain_fuel (n : Nat) (uns : Bool) (types : List Ty) (t : Ty)
+    (hp : ∀ ty ∈ types, plainTy ty = true) (h : unifyTyF n uns types = some t) : plainTy t = true :=
+  unifyTyF_plain n uns types t hp h
+
+/-- The FULL model on placeholder-free inputs: the unified type is placeholder-free and
+well-formed, and so is the type EVERY step of EVERY returned conversion converts to (the result
+type, and the intermediate list / map type of the composed closures) — any environment whose
+`unify` keeps such types (as `unifyTy` does: `unified_type_plain_std`), any fuel, either mode. -/
+theorem unified_plain (E : Env) (hE : PlainPres E.unify) (fuel : Nat) (uns : Bool) (types : List Ty) (t : Ty)
+    (cs : Convs) (hp : ∀ ty ∈ types, plainTy ty = true) (h : unifyF E fuel uns types = .ok (some (t, cs))) :
+    plainTy t = true ∧ ∀ (i : Nat) (c : UConv), cs[i]? = some (some c) → ∀ m ∈ stepTargets c, plainTy m = true := by
+  obtain ⟨ht, hc⟩ := unifyF_plain hE fuel uns types hp t cs h
+  exact ⟨ht, fun i c hi => hc c (List.mem_of_getElem? hi)⟩
+
+theorem plainPres_driver : PlainPres driverEnv.unify := plainPres_std _
+
+/-- THE CLAUSE "each returned conversion applied to any value of its input type yields a value of
+the unified type" for placeholder-free input types, NO side condition left: every slot `Unify` /
+`UnifyUnsafe` returns, direct or composed, applied to any well-typed value of its input type —
+known, unknown, null or marked, any depth — yields a value of exactly the unified type, or an
+error; on the environment the driver runs. -/
+theorem convs_yield_unified_plain (n fuel' : Nat) (uns : Bool) (types : List Ty) (t : Ty) (cs : Convs) (i : Nat)
+    (c : UConv) (v r : Value) (hp : ∀ ty ∈ types, plainTy ty = true)
+    (h : unifyF driverEnv (n + 2) uns types = .ok (some (t, cs))) (hc : cs[i]? = some (some c))
+    (hi : types[i]? = some v.ty) (hv : Value.wt v = true)
+    (ha : applyU driverEnv fuel' c v = .ok r) : r.ty = t ∧ yieldsUnified t r = true := by
+  obtain ⟨ht, hT⟩ := unified_plain driverEnv plainPres_driver (n + 2) uns types t cs hp h
+  exact convs_yield_unified_driver n fuel' uns types t cs i c v r ht h hc hi hv (hT i c hc) ha
+
+/-- THE CLAUSE "… and never fails in safe mode" for placeholder-free input types, no side
+condition left: on a well-typed value without unknown parts (nulls and marks allowed, any depth)
+every returned conversion yields a value of the unified type — no error, no panic (or the fuel
+of `apply`, the model of the conversion itself, ran out). -/
+theorem safe_convs_total_plain (n fuel' : Nat) (types : List Ty) (t : Ty) (cs : Convs) (i : Nat) (c : UConv)
+    (v : Value) (hp : ∀ ty ∈ types, plainTy ty = true) (h : unify driverEnv (n + 2) types = .ok (some (t, cs)))
+    (hc : cs[i]? = some (some c)) (hi : types[i]? = some v.ty) (hv : Value.wt v = true)
+    (hk : Payload.whollyKnown v.v = true) :
+    (∃ r, applyU driverEnv fuel' c v = .ok r ∧ r.ty = t) ∨ applyU driverEnv fuel' c v = .unmodelled := by
+  obtain ⟨ht, hT⟩ := unified_plain driverEnv plainPres_driver (n + 2) false types t cs hp h
+  exact safe_convs_total_driver n fuel' types t cs i c v ht h hc hi hv hk (hT i c hc)
+
+/-- "never panics" for the returned conversions, placeholder-free input types, either mode, no
+side condition left. -/
+theorem no_panic_applied_plain (n fuel' : Nat) (uns : Bool) (types : List Ty) (t : Ty) (cs : Convs) (i : Nat)
+    (c : UConv) (v : Value) (hp : ∀ ty ∈ types, plainTy ty = true)
+    (h : unifyF driverEnv (n + 2) uns types = .ok (some (t, cs))) (hc : cs[i]? = some (some c))
+    (hi : types[i]? = some v.ty) (hv : Value.wt v = true) (hk : Payload.whollyKnown v.v = true) :
+    (applyU driverEnv fuel' c v).isPanic = false := by
+  obtain ⟨ht, hT⟩ := unified_plain driverEnv plainPres_driver (n + 2) uns types t cs hp h
+  exact no_panic_applied_driver n fuel' uns types t cs i c v ht h hc hi hv hk (hT i c hc)
+
+/-- the hypotheses are jointly satisfiable by the former witnesses (composed closures, depth 2) -/
+example : ∀ ty ∈ totalWitnessTys, plainTy ty = true := by decide
+example : ∀ ty ∈ yieldWitnessTys, plainTy ty = true := by decide
+example : (applyU driverEnv 8 totalWitnessConv totalWitnessV).isPanic = false :=
+  no_panic_applied_plain 2 8 false totalWitnessTys _ _ 0 _ totalWitnessV (by decide) rfl rfl rfl (by decide) (by decide)
 
 end C09
 end CtyModel
